@@ -19,14 +19,25 @@ type StructCfg struct {
 }
 
 // FloatClassNames indexes the distribution counters.
-var FloatClassNames = []string{"smallint", "zero", "negzero", "subnormal", "minnormal", "max", "digits17", "randbits", "huge", "tiny", "inf", "nan"}
+var FloatClassNames = []string{"smallint", "zero", "negzero", "subnormal", "minnormal", "max", "digits17", "randbits", "huge", "tiny", "inf", "nan", "f32exact"}
 
 // GenFloat draws a float64 from the classes the quantifiers name; cls returns the class index.
 func GenFloat(r *Rng, nonFinite bool) (f float64, cls int) {
 	k := r.Intn(20)
 	switch {
-	case k < 6:
+	case k < 5:
 		return float64(r.Range(-20, 20)), 0
+	case k == 5:
+		// exactly representable in single precision, but with a long exact decimal expansion: the
+		// shortest decimal that identifies the float32 does not identify the float64
+		switch r.Intn(3) {
+		case 0: // widened from float32
+			return float64(float32(float64(r.Range(-200000, 200000)) / 100)), 12
+		case 1: // dyadic fractions n/2^m
+			return sign(r) * (float64(r.Range(0, 40)) + float64(r.Range(1, 1<<12))/float64(uint64(1)<<uint(r.Range(10, 20)))), 12
+		default: // integers >= 2^24 with enough trailing zero bits
+			return sign(r) * float64(uint64(r.Range(1<<20, 1<<24))<<uint(r.Range(1, 30))), 12
+		}
 	case k == 6:
 		return 0, 1
 	case k == 7:
@@ -80,7 +91,7 @@ func sign(r *Rng) float64 {
 type GenStats struct {
 	Kinds      [7]int
 	CTs        [4]int
-	FloatCls   [12]int
+	FloatCls   [13]int
 	EmptyNodes int
 	EmptyKids  int
 	Depth      [8]int
